@@ -166,8 +166,10 @@ TEXT = {
             "same results of writes with and without expansion (simulation relation vrel); the memo state machine of a "
             "VirtualNode hands each child out of the source at most once. View level (VirtualViews.v): element / field get "
             "and set, lengths, append, pop, bit get / set, Bitlist append / pop, union value compute on the virtual tree "
-            "exactly what they compute on the materialised tree (same data, same errors, related backings), so histories "
-            "compose. Python views over VirtualNode are tied by the correspondence (model with VirtN + table source, also "
+            "exactly what they compute on the materialised tree (same data, same errors, related backings); serialisation gives "
+            "the same bytes (C20_encoding); store level (VirtualStore.v): any command, hence any history through any held "
+            "views with their hooks, gives the same results on both stores and every held view keeps the same root and "
+            "encoding (C20_store_history / _observed). Python views over VirtualNode are tied by the correspondence (model with VirtN + table source, also "
             "write-before-read schedules) and model-free comparison with the materialised tree; "
             "per-node source-call log checked for repeats.",
             "Coq proof (simulation relation vrel, state-machine invariant) + correspondence", "5 (C20)"),
